@@ -120,6 +120,61 @@ def check_pair(st, op, method, hi, hay, needle):
                 exp, got)
 
 
+# ----------------------------------------------------- spellings of one value
+# groups of YAML spellings of ONE value: the first is the plain spelling, the
+# others load as other node types (ruamel's int / float / bool wrappers for
+# anchored, grouped, hexadecimal, octal ... scalars)
+SPELLINGS = [
+    ["1000", "&P 1000", "1_000", "0x3e8", "0o1750", "+1000"],
+    ["16", "0x10", "&Q 16", "0X10", "1_6"],
+    ["-1", "&N -1"],
+    ["2.5", "&F 2.5", "2.50", "+2.5", "25e-1"],
+    ["true", "&T true"],
+    ["a", "&A a", '"a"', "'a'"],
+]
+SPELLING_NEEDLES = NEEDLES + ["+1000", "0x3e8", "0X3E8", "0o1750", "1_0_0_0",
+                              "16", "+16", "0b10000", "2.50", "+2.5", "25e-1",
+                              "1e3", "1000.0"]
+
+
+def spelling_shard(_):
+    """However a document spells a value, a search sees the value: every
+    operator answers every needle alike for all spellings of one value."""
+    st = core.Stats(ID)
+    for group in SPELLINGS:
+        nodes = list(corpus.load("[" + ", ".join(group) + "]"))
+        for op, method in OPS.items():
+            for needle in SPELLING_NEEDLES:
+                if op == "=~":
+                    try:
+                        re.compile(needle)
+                    except re.error:
+                        continue
+                answers = []
+                for node in nodes:
+                    st.evaluations += 1
+                    st.transitions += 1
+                    try:
+                        answers.append(bool(Searches.search_matches(
+                            method, needle, node)))
+                    except Exception as ex:  # pylint: disable=broad-except
+                        answers.append("%s" % type(ex).__name__)
+                st.validated += 1
+                st.states += 1
+                st.outcomes[str(answers[0])] += 1
+                if any(a != answers[0] for a in answers[1:]):
+                    odd = [group[i] for i, a in enumerate(answers)
+                           if a != answers[0]]
+                    st.fail("spelling:%s:%s" % (op, group[0]),
+                            {"kind": "spelling", "op": op, "needle": needle,
+                             "group": group},
+                            "%r for every spelling" % answers[0],
+                            "differs for %r" % odd)
+                else:
+                    st.sig("spelling", op, group[0], answers[0])
+    return st
+
+
 # ------------------------------------------------------------------ inversion
 DOCS = []
 SEGS = []
@@ -254,6 +309,8 @@ def explore(tier, seed):
     for st in core.pmap(grid_shard, list(OPS)):
         total.merge(st)
     grid_evals = total.evaluations
+    for st in core.pmap(spelling_shard, [0]):
+        total.merge(st)
     if tier == "quick":
         DOCS = corpus.docs(4, (1000, "a", "b", 2000), ("a", "b"))
         terms = ("a", "1000")
@@ -280,6 +337,15 @@ def explore(tier, seed):
 
 def replay(case):
     st = core.Stats(None)
+    if case["kind"] == "spelling":
+        st = spelling_shard(0)
+        for key, lst in st.fails.items():
+            for f in lst:
+                if f["case"]["op"] == case["op"] and \
+                        f["case"]["needle"] == case["needle"] and \
+                        f["case"]["group"] == case["group"]:
+                    return f
+        return None
     if case["kind"] == "grid":
         hi = HAY_YAML.index(case["haystack_yaml"])
         check_pair(st, case["op"], OPS[case["op"]], hi, hays()[hi],
@@ -307,6 +373,10 @@ def replay(case):
 
 
 def repro(case):
+    if case["kind"] == "spelling":
+        return ("# Searches.search_matches(%s, %r, node) for the nodes of "
+                "[%s]\n" % (case["op"], case["needle"],
+                            ", ".join(case["group"])))
     if case["kind"] == "grid":
         return ("from yamlpath.common import Searches, Parsers\n"
                 "from yamlpath.enums import PathSearchMethods\n"
